@@ -138,24 +138,41 @@ def check_engine(ctx, F, b, fn, tag):
         tr, fa = bool_edges(sb, st)
         verify_false |= fa
     equal = set()
+
+    def is_final(os_):
+        for o in os_:
+            if o.kind == 'call' and o.key == 'blake3::Hasher::finalize':
+                fo = call_arg_origins(fl, o.bb, 0)
+                if any(x.kind == 'call' and x.key == 'blake3::Hasher::new' for x in fo) and \
+                   {(x.kind, x.key, x.bb) for x in fo if x.kind == 'call'} <= hashers:
+                    return True
+        return False
+
+    def is_checksum(os_):
+        return any((o.kind, o.key) in delta_roots and o.path[:1] == ('checksum',) for o in os_)
     for (cb, ct) in fl.calls_to('std::cmp::PartialEq::eq', 'std::cmp::PartialEq::ne'):
         o0 = fl.origins(ct['args'][0], interproc=ctx.interproc[F.cfg])
         o1 = fl.origins(ct['args'][1], interproc=ctx.interproc[F.cfg])
-
-        def is_final(os_):
-            for o in os_:
-                if o.kind == 'call' and o.key == 'blake3::Hasher::finalize':
-                    fo = call_arg_origins(fl, o.bb, 0)
-                    if any(x.kind == 'call' and x.key == 'blake3::Hasher::new' for x in fo) and \
-                       {(x.kind, x.key, x.bb) for x in fo if x.kind == 'call'} <= hashers:
-                        return True
-            return False
-
-        def is_checksum(os_):
-            return any((o.kind, o.key) in delta_roots and o.path[:1] == ('checksum',) for o in os_)
         if (is_final(o0) and is_checksum(o1)) or (is_final(o1) and is_checksum(o0)):
             eq, ne = eq_edges(fl, cb)
             equal |= eq
+    # the comparison may go through an equality helper of the crate (`computed.ct_eq(&delta.checksum)`): its true edge is the
+    # equal edge - provided the helper IS an equality over all the bytes (judged once, below)
+    for (cb, ct) in fl.calls(lambda c: F.body(c) is not None and len(F.body(c).locals) > 2 and F.body(c).argc == 2 and F.body(c).local_ty(0) == 'bool'):
+        if len(ct['args']) != 2:
+            continue
+        o0 = fl.origins(ct['args'][0], interproc=ctx.interproc[F.cfg])
+        o1 = fl.origins(ct['args'][1], interproc=ctx.interproc[F.cfg])
+        if (is_final(o0) and is_checksum(o1)) or (is_final(o1) and is_checksum(o0)):
+            verdict, why_ = equality_helper(F, callee(ct))
+            if verdict is False:
+                ctx.bad('C05.R3', '%s:equality-helper' % tag, '%s compares the hash of the written bytes with delta.checksum through %s, which is not an equality of all bytes: %s' % (
+                    fn, callee(ct).split('::')[-1], why_), term_loc(b, cb))
+            elif verdict is None:
+                ctx.undecided('C05.R3', '%s compares through %s: %s' % (fn, callee(ct).split('::')[-1], why_))
+                equal |= fl.outcomes(cb).get('true', set())
+            else:
+                equal |= fl.outcomes(cb).get('true', set())
     ret0 = ret_defs(b)
     for ob in ok_blocks:
         ok = cfg.edges_guard(verify_false | equal, ob) if (verify_false or equal) else False
@@ -513,6 +530,49 @@ def _bounds_test(F, body, leak_blocks):
             detail = 'out-of-bounds edge %s; leaks to the accepting result / next iteration: %s; comparison admits end==basis_size only: %s; operands offset+len: %s' % (
                 bool(out_edges), sorted(leaks), strict_ok, sat_ok)
     return good, detail
+
+
+def equality_helper(F, path):
+    """(True / False / None, why): a crate fn (x, y) -> bool used as "the two digests are equal".  Constant-time forms accumulate
+    the per-element differences `a ^ b` and test the accumulator against zero: the accumulation must be OR - with XOR or +
+    differences in different positions cancel and unequal digests compare equal."""
+    hb = F.body(path)
+    if hb is None:
+        return None, 'no body'
+    bodies = [hb] + [x for x in F.nested(path) if x.path != hb.path]
+    has_or = has_cancel = False
+    for xb in bodies:
+        xfl = flow_of(xb)
+        for bi in xfl.cfg.reachable():
+            for st in xb.blocks[bi]['stmts']:
+                rv = st['rv']
+                if rv['k'] == 'bin' and rv['op'] in ('BitOr', 'BitXor', 'Add', 'AddWithOverflow'):
+                    # an accumulation: one operand is (a copy of) the destination's own earlier value
+                    acc = any(o['k'] != 'const' and any(x.kind == 'op' and x.bb == bi and str(x.key) == rv['op'] for x in xfl.origins(o)) for o in rv['ops'])
+                    if acc and rv['op'] == 'BitOr':
+                        has_or = True
+                    elif acc:
+                        has_cancel = rv['op']
+            t = xb.blocks[bi]['term']
+            if t['k'] == 'call':
+                for a in t['args']:
+                    if a['k'] == 'const' and 'fn' in a:
+                        fnm = str(a['fn'])
+                        if 'BitOr' in fnm and 'bitor' in fnm:
+                            has_or = True
+                        elif ('BitXor' in fnm and 'bitxor' in fnm) or ('ops::Add' in fnm and '::add' in fnm) or 'wrapping_add' in fnm:
+                            has_cancel = fnm.split('::')[-1]
+                c_ = callee(t) or ''
+                if c_.endswith('BitXor::bitxor') and any(any(x.kind == 'call' and x.bb == bi for x in xfl.origins(a)) for a in t['args'] if a['k'] != 'const'):
+                    has_cancel = 'bitxor'
+    if has_cancel:
+        return False, 'it folds the per-element differences with %s, so differences in different positions cancel (unequal digests compare equal)' % has_cancel
+    if has_or:
+        return True, 'differences are OR-ed into an accumulator'
+    # a plain delegation to == is fine
+    if any(callee(t) in ('std::cmp::PartialEq::eq',) for xb in bodies for _, t in flow_of(xb).calls(lambda c: True)):
+        return True, 'delegates to =='
+    return None, 'how it compares is not read'
 
 
 def _not_when_command_is(F, m, fl, variant):
